@@ -6,6 +6,11 @@ set -u
 name=$1; shift
 cd /verif
 export VERIF_OUT_DIR=/tmp/seeded_out GOFLAGS=-mod=mod GOPROXY=off GOSUMDB=off GOTOOLCHAIN=local
+# hold the build lock while the broken tree is in place (background checks
+# started with VERIF_BUILD_LOCK=/tmp/verif_repo.lock wait for it)
+exec 9>/tmp/verif_repo.lock
+flock 9
+unset VERIF_BUILD_LOCK
 if ! git -C /repo diff --quiet; then echo "/repo has uncommitted changes"; exit 2; fi
 git -C /repo apply /verif/seeded/$name/patch.diff || exit 2
 trap 'git -C /repo checkout -- .' EXIT
